@@ -344,6 +344,10 @@ def run_case(ctx, i, rng):
                     mid = snap(g)
                     r2 = canon(thunk())
                 except Exception as ex:
+                    if not all(math.isfinite(x) for vv in g._vertices for x in M.fl(vv.pose)):
+                        # a diverged / singular optimize run left NaN poses: queries (the harness' own AD-backed custom edges among them) may refuse such a state
+                        ctx.count("history_ended:query_raised_on_a_nonfinite_state:" + type(ex).__name__)
+                        break
                     ctx.check("query-leaves-state-unchanged", False, {"query": q, "exception": type(ex).__name__}, {"message": str(ex)[:300], "history": hist[-6:]}, case)
                     break
             after = snap(g)
